@@ -325,7 +325,12 @@ class PVLParser(object):
         """
         (begin, block_name) = self.parse_begin_aggregation_statement(tokens)
 
-        agg = self.aggregation_cls(begin)
+        try:
+            agg = self.aggregation_cls(begin)
+        except ValueError as err:
+            # The Begin-Aggregation-Statement has been consumed, so this
+            # can no longer be "some other kind of statement".
+            tokens.throw(ValueError, str(err))
 
         while True:
             self.parse_WSC_until(None, tokens)
@@ -367,7 +372,16 @@ class PVLParser(object):
                         except (LexerError, ParseError):
                             raise
                         except Exception:
-                            raise ve
+                            # The block was opened, so what follows cannot
+                            # be retried as another kind of statement by
+                            # the caller: this is an error in the text.
+                            tokens.throw(
+                                ValueError,
+                                "Expecting an Assignment Statement, an "
+                                "Aggregation Block or the End Aggregation "
+                                f'Statement of "{begin} = {block_name}": '
+                                f"{ve} "
+                            )
 
         return block_name, agg
 
